@@ -18,6 +18,7 @@
   model shows that nothing is synced out of the EVM on failure.
 -/
 import RigoProofs.C05Noop
+import RigoProofs.C05CongrMain
 open Std
 
 namespace Rigo.C05
@@ -104,10 +105,10 @@ theorem failed_tx_fresh_sender_still_fails {s s' : St} {h : Int} {later : TxIn} 
     (handleTx s true h later).2.code ≠ 0 ∧ (handleTx s' true h later).2.code ≠ 0 :=
   later_from_fresh_fails hs he hF hm
 
-/-- The full congruence — every later delivery answers the same code and leaves obs-equal states —
-    is stated here and NOT proved (it needs a relational pass over every validation / execution
-    function for two states that differ by empty records).  It needs the hypothesis `0 < minTrxFee`:
-    see the counter-example below. -/
+/-- The full congruence — every later delivery answers the same code and leaves obs-equal states — as a
+    statement.  It needs the hypothesis `0 < minTrxFee` (counter-example below) and it is proved for
+    transactions whose receiver / EVM addresses do not collide under the 32-byte ledger key
+    (`failed_tx_invisible`, `failed_tx_invisible_wf`). -/
 def failed_tx_invisible_statement : Prop :=
   ∀ (g : Genesis) (s : St), Reachable g s → ∀ tx : TxIn, FeeSane s → 0 < s.active.minTrxFee →
     (∀ a, s.accts.fin[ledgerKey tx.from_]? = some a → a.bal < 2 ^ 256) →
@@ -115,6 +116,35 @@ def failed_tx_invisible_statement : Prop :=
     ∀ later : TxIn,
       ((deliverTx (deliverTx s tx).1 later).2.tx.map (·.code)) = ((deliverTx s later).2.tx.map (·.code)) ∧
       obs (deliverTx (deliverTx s tx).1 later).1 = obs (deliverTx s later).1
+
+/-- **failed_tx_invisible** ("later transactions in the same block observe the unchanged state", as a
+    statement about BEHAVIOUR): after a failed delivery from a reachable state, every later delivery
+    answers the same code and ends in an observably equal state as if the failed transaction had never been
+    delivered.  Hypotheses beyond the statement above: `KeyCompat` — no address whose (empty) record the
+    failed transaction created shares its 32-byte ledger key with a DIFFERENT address the later transaction
+    finds-or-creates (only possible for receivers of a length other than 20 bytes) — and `CreatedListed` —
+    a successful deployment's created address is among the addresses the EVM result lists.  Proved by a
+    relational pass (`C05C.Sim`: same state up to empty records under fresh keys) over every validation
+    and execution function: `C05C.handleTx_congr`, `C05C.deliverTx_congr`. -/
+theorem failed_tx_invisible :
+    ∀ (g : Genesis) (s : St), Reachable g s → ∀ tx : TxIn, FeeSane s → 0 < s.active.minTrxFee →
+    (∀ a, s.accts.fin[ledgerKey tx.from_]? = some a → a.bal < 2 ^ 256) →
+    (∀ o, (deliverTx s tx).2.tx = some o → o.code ≠ 0) →
+    ∀ later : TxIn, C05C.KeyCompat tx later → C05C.CreatedListed tx later →
+      ((deliverTx (deliverTx s tx).1 later).2.tx.map (·.code)) = ((deliverTx s later).2.tx.map (·.code)) ∧
+      obs (deliverTx (deliverTx s tx).1 later).1 = obs (deliverTx s later).1 :=
+  C05C.failed_tx_invisible_partial
+
+/-- **failed_tx_invisible_wf**: the same under plain well-formedness — all receiver / EVM addresses of both
+    transactions are 20-byte addresses and the EVM result of a deployment lists the created address. -/
+theorem failed_tx_invisible_wf :
+    ∀ (g : Genesis) (s : St), Reachable g s → ∀ tx : TxIn, FeeSane s → 0 < s.active.minTrxFee →
+    (∀ a, s.accts.fin[ledgerKey tx.from_]? = some a → a.bal < 2 ^ 256) →
+    (∀ o, (deliverTx s tx).2.tx = some o → o.code ≠ 0) → C05C.Addrs20 tx →
+    ∀ later : TxIn, C05C.Addrs20 later → C05C.EvmCreatedListed later →
+      ((deliverTx (deliverTx s tx).1 later).2.tx.map (·.code)) = ((deliverTx s later).2.tx.map (·.code)) ∧
+      obs (deliverTx (deliverTx s tx).1 later).1 = obs (deliverTx s later).1 :=
+  C05C.failed_tx_invisible_wf
 
 /-! #### counter-example without a positive minimum fee
 
@@ -163,5 +193,17 @@ example : ((deliverTx sW txPoor).2.tx.map fun t => (t.code, t.kind)) = some (5, 
 /-- the failed transfer did create the (empty) receiver record -/
 example : (deliverTx sW txPoor).1.accts.fin[ledgerKey txPoor.to]? = some (emptyAcct txPoor.to) ∧
     sW.accts.fin[ledgerKey txPoor.to]? = none := by decide
+
+/-- a later transfer to the receiver the failed transfer named -/
+def txLater : TxIn :=
+  { sigOk := true, from_ := "aa00000000000000000000000000000000000001", to := "bb00000000000000000000000000000000000002",
+    amount := 5, gas := 2, price := 10, type := TRX_TRANSFER }
+instance (t : TxIn) : Decidable (C05C.Addrs20 t) := by unfold C05C.Addrs20; infer_instance
+/-- the hypotheses of `failed_tx_invisible_wf` are met by `gW`, `sW`, `txPoor`, `txLater` … -/
+example : 0 < sW.active.minTrxFee ∧ C05C.Addrs20 txPoor ∧ C05C.Addrs20 txLater ∧ C05C.EvmCreatedListed txLater :=
+  ⟨by decide, by decide, by decide, fun o ho => by cases ho⟩
+/-- … and its conclusion agrees with direct evaluation (the later transfer succeeds either way) -/
+example : ((deliverTx (deliverTx sW txPoor).1 txLater).2.tx.map (·.code)) = some 0 ∧
+    ((deliverTx sW txLater).2.tx.map (·.code)) = some 0 := by decide
 
 end Rigo.C05
